@@ -3,6 +3,7 @@
 # Rebuilds the checker from /repo's current working tree (incremental) and runs one property check.
 # exit 0 = property held on everything explored (KNOWN-FINDING lines possible), 1 = VIOLATION, 2 = harness problem.
 ID="$1"; MODE="$2"; FILE="$3"
+case "$FILE" in /*|"") ;; *) FILE="$(pwd)/$FILE" ;; esac
 export GOFLAGS=-mod=mod GOPROXY=off GOSUMDB=off GOTOOLCHAIN=local
 export VERIF_ROOT=/verif
 cd /verif/harness || exit 2
